@@ -642,6 +642,20 @@ func (st *runState) finish(start time.Time) int {
 		fmt.Printf("VIOLATION property=%s replay=%s\n", st.prop, path)
 		fmt.Printf("  scenario=%s kind=%s site=%s\n  %s\n", v.Scenario, v.Kind, v.Site, strings.ReplaceAll(tail(v.Detail, 12), "\n", "\n  "))
 	}
+	if len(newSigs) > 0 {
+		type sc struct {
+			s sig
+			c int
+		}
+		var l []sc
+		for s, c := range newSigs {
+			l = append(l, sc{s, c})
+		}
+		sort.Slice(l, func(i, j int) bool { return l[i].c > l[j].c })
+		for _, e := range l {
+			fmt.Printf("SIGNATURE %6d x scenario=%s kind=%s site=%s\n", e.c, e.s.scen, e.s.kind, e.s.site)
+		}
+	}
 	// coverage floors
 	var missed []string
 	if os.Getenv("VERIF_MAXCASES") == "" {
